@@ -677,6 +677,12 @@ func (g *gen) genUnit(i int) {
 				}
 			}
 			nParams = max(2, min(nParams, 10))
+		} else if i >= 2 {
+			// fanned-out units mostly hang off a base unit (three out of four)
+			nParams = 1
+			if rapid.Bool().Draw(g.rt, "fan-free0") && rapid.Bool().Draw(g.rt, "fan-free1") {
+				nParams = 0
+			}
 		} else if nParams > 1 {
 			nParams = 1
 		}
